@@ -31,7 +31,9 @@ def _universe():
     kd, _ = K.pgpy_cert('ed25519c', uid=pgpy.PGPUID.new('Dee Dee', comment='both halves', email='dee@example.org'), created=K.T0 + 1200)
     ke, _ = K.pgpy_cert('ecdsa_p384a', uid=pgpy.PGPUID.new('Eve Subkeys', email='eve@example.org'), created=K.T0 + 1500,
                         subkeys=[('cv25519a', {KeyFlags.EncryptCommunications}), ('ecdsa_p256b', {KeyFlags.Sign})])
-    return collections.OrderedDict([('A', ka.pubkey), ('B', kb.pubkey), ('C', kc), ('Dpub', kd.pubkey), ('Dsec', kd), ('E', ke)]), (ka, kb, kc, kd, ke)
+    # A2: another key with A's identity, created in the very same second, same half
+    ka2, _ = K.pgpy_cert('ecdsa_p256b', uid=pgpy.PGPUID.new('Same Name', comment='same comment', email='same@example.org'))
+    return collections.OrderedDict([('A', ka.pubkey), ('B', kb.pubkey), ('C', kc), ('Dpub', kd.pubkey), ('Dsec', kd), ('E', ke), ('A2', ka2.pubkey)]), (ka, kb, kc, kd, ke, ka2)
 
 
 def idents(key):
@@ -69,6 +71,7 @@ def menu(with_blobs, names=None):
     ops = [('load-obj', n) for n in names]
     ops += [('unload', n) for n in names]
     ops += [('unload-by', 'name-shared'), ('unload-by', 'email-shared')]
+    names = list(names)
     if with_blobs:
         ops += [('load-bin', 'A'), ('load-asc', 'B'), ('load-file', 'C'), ('load-list', 'A+Dsec'), ('load-bin', 'E'), ('load-asc', 'Dpub')]
     return ops
@@ -92,7 +95,7 @@ class Prop(object):
     def units(self, tier, seed):
         u = []
         # (a) the clusters of keys that share identifiers, each explored to closure (the depth is only a safety cap)
-        for cl in (['A', 'B', 'C'], ['Dpub', 'Dsec', 'A'], ['A', 'B', 'E']):
+        for cl in (['A', 'B', 'C'], ['Dpub', 'Dsec', 'A'], ['A', 'B', 'E'], ['A', 'A2', 'B']):
             for i in range(len(cl)):
                 u.append(('bfs', {'first': i, 'blobs': False, 'depth': 14, 'names': cl}))
         # (b) the whole universe, depth-bounded
@@ -183,7 +186,7 @@ class Prop(object):
                     self._model_remove(loaded, got)
                 elif kind == 'unload-by':
                     ident = 'Same Name' if arg == 'name-shared' else 'same@example.org'
-                    holders = [l for l in loaded if l[0] in (('A', 'B') if arg == 'name-shared' else ('A', 'B', 'C'))]
+                    holders = [l for l in loaded if l[0] in (('A', 'B', 'A2') if arg == 'name-shared' else ('A', 'B', 'C', 'A2'))]
                     if not holders:
                         return None
                     try:
